@@ -213,17 +213,20 @@ def r3_writers(ctx, f, rep):
                     continue
                 for e in s['lhs']['proj']:
                     if e['k'] == 'field' and strip_generics(e.get('owner', '')) == MEMBER:
-                        writers.setdefault(b.nname, []).append((e['name'], s['span']))
+                        for nm in f.attributed(b):
+                            writers.setdefault(nm, []).append((e['name'], s['span']))
                 rv = s['rv']
                 if rv['k'] == 'aggregate' and rv['what'] == 'adt' and strip_generics(rv['name']) == MEMBER:
                     constructors.update(f.attributed(b))
                 if rv['k'] == 'ref' and rv['mut']:
                     for e in rv['place']['proj']:
                         if e['k'] == 'field' and strip_generics(e.get('owner', '')) == MEMBER:
-                            writers.setdefault(b.nname, []).append(('&mut ' + e['name'], s['span']))
+                            for nm in f.attributed(b):
+                                writers.setdefault(nm, []).append(('&mut ' + e['name'], s['span']))
                         if e['k'] == 'field' and strip_generics(e.get('owner', '')) == 'member::Members' \
                                 and e['name'] == 'inner':
-                            inner_mut.setdefault(b.nname, []).append(s['span'])
+                            for nm in f.attributed(b):
+                                inner_mut.setdefault(nm, []).append(s['span'])
     allowed_writers = {'member::Member::change_state', 'member::Members::apply_existing_if'}
     for w, sites in sorted(writers.items()):
         if is_serde_generated(w):
